@@ -58,6 +58,8 @@ type Job struct {
 	JSONLens        []int
 	Stubs           map[string]interceptFn
 	OneShot         bool // non-incremental solving (floating point)
+	CutCalls        []string // calls to functions whose name ends with one of these end the path as outside the unit
+	HangIsViolation bool // exceeding the step budget is reported as a hang candidate (replayed natively with a watchdog)
 	UnwindIsBound   bool // reaching the unwinding bound is a stated bound (outside the claim), not an unwinding failure
 
 	mu  sync.Mutex
@@ -280,6 +282,13 @@ func runPath(prog *ssa.Program, j *Job, ctx *Ctx, sol *Solver, cache *SatCache, 
 		r, m := sol.Check(true)
 		if r == "sat" {
 			it.violations = append(it.violations, Violation{Msg: detail, Site: gp.fn, Model: m, Kind: "panic", Decisions: append([]int{}, it.taken...)})
+		}
+	}
+	if outcome == "inconclusive" && strings.HasPrefix(detail, "step budget exceeded") && j.HangIsViolation {
+		r, m := sol.Check(true)
+		if r == "sat" {
+			outcome = "hang"
+			it.violations = append(it.violations, Violation{Msg: "no termination within the step budget (hang candidate)", Site: it.fnName(), Model: m, Kind: "hang", Decisions: append([]int{}, it.taken...)})
 		}
 	}
 	if outcome == "blocked" && !j.BlockedOK {
